@@ -226,6 +226,7 @@ class Contract:
     effects: list = field(default_factory=list)      # caller-side ghost effects ("append:errors", ...)
     variant: str = ""
     track_log: bool = False
+    log_names: list = field(default_factory=list)    # restrict the ghost call log to these callee names
     drift: list = field(default_factory=list)        # assumed-contract keys (SQL text ...): failing => undecided
     abstract_locals: dict = field(default_factory=dict)   # local name -> "pageset" | "namerel" (ghost view of a container)
     abstract_calls: dict = field(default_factory=dict)    # simple callee name -> abstract handler (assumed contract)
@@ -326,9 +327,12 @@ class X:
         st.heap[hid] = obj
         return V("ref", hid)
 
-    def log_call(self, st, name, pos):
+    def log_call(self, st, name, pos, result=None):
         if getattr(self.c, "track_log", False):
-            st.log = st.log + (("call", name, tuple(pos)),)
+            names = getattr(self.c, "log_names", None)
+            if names and name not in names:
+                return
+            st.log = st.log + (("call", name, tuple(pos), result),)
 
     def on_ghost_pop(self, st, field, before, after, node):
         """pop of a tracked sequence: never below the entry frame when the
